@@ -46,6 +46,24 @@ chk("C07", "proof",
     "Coq proof over translated comparison + sort model; correspondence by vm_compute; enumeration of documents for rule behaviour",
     "DESIGN.md section 4 C07")
 
+chk("C20", "proof",
+    "Proved (Coq, closed under the global context): (1) over the table of inline-handler registrations regenerated from "
+    "inline_handler_helper.py::initialize and emphasis_helper.py::initialize on every run (with the guard of each registration): every "
+    "registration made under an extension switch is for a character of that extension's class and no unconditional registration is; "
+    "hence, for arbitrary handlers and any other switches, the scan of a text without the extension's characters calls the same handlers "
+    "at the same places with the extension on and off, and with the extension off its characters are no stop characters at all; "
+    "(2) over the hand model Model/FrontMatter.v of process_header_if_present (PyYAML's verdict a parameter): a recognised header is "
+    "exactly opening line + collected lines + first closing line at the start of the document, the block pass continues with exactly the "
+    "remaining lines numbered from the length of the block plus one; an unrecognised header consumes nothing. The models are tied to the "
+    "code by comparing the handler dictionary under all 64 switch subsets and the header decision on enumerated line lists (vm_compute). "
+    "What the handlers and the block-level hooks (pragmas, task list items, raw-HTML filter) do is outside the models: inertness of the "
+    "whole parser is decided by enumeration only (every document under all 64 subsets against the subset restricted to the extensions "
+    "whose syntax occurs; plain CommonMark with everything off against the spec model CM and markdown-it; document sequences on one tokenizer).",
+    "Trusted: Coq kernel + vm_compute, translator inline_triggers.py, the hand model of the front-matter loop (checked by correspondence), "
+    "PyYAML as the oracle for valid YAML, the hand-written reading of 'contains the extension's syntax', the spec model CM and markdown-it-py as references.",
+    "Coq proof over regenerated registration table + hand model; correspondence by vm_compute; exhaustive differential over switch subsets",
+    "DESIGN.md section 4 C20")
+
 chk("C19", "proof",
     "Proved (Coq, closed under the global context) for every directory tree, flag setting and argument list, over the hand model "
     "Model/Discover.v (determine_files_to_scan with os.path/os.walk/glob semantics): selected paths strictly sorted without repetition; "
